@@ -158,7 +158,12 @@ def handleAgg (D M : Nat) (chunk : Bool) (ctx : Nat) (batches : List (List File)
       else
         let k := failKey D M chunk ctx u l
         if k == "chunk-context-short-at-eof" then specFail model ("agg:" ++ k)
-        else if promotionInPlay D M chunk batches then specFail model ("agg:novel-extension:" ++ k)
+        -- the documented defect and nothing else: the implementation returned exactly what the unchanged algorithm
+        -- (rank with promotion + truncate after every shard result = this model) returns for this arrival order, and
+        -- a promotion was in play; any other deviation from the top of the unlimited ranking is a violation
+        else if promotionInPlay D M chunk batches && some l == lim && some u == unl then
+          specFail model ("agg:novel-extension:" ++ k)
+        else if promotionInPlay D M chunk batches then specFail model ("agg:deviates-from-rank-and-truncate:" ++ k)
         else specFail model ("agg:" ++ k)
     | none, none => answer model
     | _, _ => specFail model "agg:ok-flag"
